@@ -269,7 +269,16 @@ fn exec(m: &M, op: &COp, pin: bool, yielded: &mut Vec<(u32, u64, u32)>, closure_
                 verdicts.push(format!("{}:{}:{}", k.id, v.origin, keep));
                 keep
             };
-            if *force {
+            // through the guard-passing API or through the reference wrapper (`pin()`)
+            if pin {
+                drop(g);
+                let r = m.pin();
+                if *force {
+                    r.retain_force(f)
+                } else {
+                    r.retain(f)
+                }
+            } else if *force {
                 m.retain_force(f, &g)
             } else {
                 m.retain(f, &g)
@@ -277,8 +286,7 @@ fn exec(m: &M, op: &COp, pin: bool, yielded: &mut Vec<(u32, u64, u32)>, closure_
             verdicts.join(",")
         }
         COp::Clear => {
-            let g = m.guard();
-            m.clear(&g);
+            with!(|mm, g| mm.clear(&g), |p| p.clear());
             "ok".into()
         }
         COp::CondRm(..) | COp::ForceRm(..) | COp::ClearRm(..) | COp::ClearRmOpt(..) => "-".into(),
@@ -314,7 +322,15 @@ fn exec(m: &M, op: &COp, pin: bool, yielded: &mut Vec<(u32, u64, u32)>, closure_
                     verdicts.push(format!("{}:{}:{}", k.id, v.origin, keep));
                     keep
                 };
-                if *force {
+                if pin {
+                    drop(g);
+                    let r = m.pin();
+                    if *force {
+                        r.retain_force(f)
+                    } else {
+                        r.retain(f)
+                    }
+                } else if *force {
                     m.retain_force(f, &g)
                 } else {
                     m.retain(f, &g)
@@ -404,6 +420,25 @@ pub fn run_conc(case: &ConcCase, record_all: bool, budget: usize) -> ConcResult 
         final_snap = fmt_snap(&snap);
         wf = validate_snapshot(&snap, true);
         len_final = map.len();
+        // C06 after contention: the cost of a lookup in a tree bin stays logarithmic (a tree bin
+        // whose lock word is left in a "writer waiting" state answers every lookup by a linear scan)
+        if let Some(t) = &snap.table {
+            for b in &t.bins {
+                if let flurry::verif_inspect::BinSnap::Tree { nodes, .. } = b {
+                    let n = nodes.len();
+                    let bound = (4.0 * ((n + 1) as f64).log2()).ceil() as u64 + 2;
+                    for tn in nodes.iter() {
+                        crate::types::reset_cmp_counters();
+                        let _ = map.get(&K::new(tn.node.key.id, 0), &g);
+                        let (eq, cmp) = crate::types::cmp_counters();
+                        if n >= 8 && eq + cmp > bound {
+                            wf.push(format!("lookup cost: get({}) in a tree bin of {} keys used {} key comparisons (> {}) after the run", tn.node.key.id, n, eq + cmp, bound));
+                            break;
+                        }
+                    }
+                }
+            }
+        }
         // every key must also be found by get()
         for (k, v, o) in &final_contents {
             match map.get(&K::new(*k, 0), &g) {
@@ -421,6 +456,7 @@ pub fn run_conc(case: &ConcCase, record_all: bool, budget: usize) -> ConcResult 
         let spans: Vec<crate::life::GuardSpan> = calls.iter().map(|c| crate::life::GuardSpan { tid: c.tid, from: c.inv, to: c.resp }).collect();
         let drops = VAL_DROPS.lock().unwrap().clone();
         life_failures.extend(crate::life::analyze(&trace, &spans, &drops));
+        life_failures.extend(crate::life::lock_discipline(&trace));
         let (hbf, _st) = crate::hb::analyze(&trace, n);
         life_failures.extend(hbf);
     }
@@ -905,9 +941,13 @@ pub fn gen_conc_mode(id: usize, seed: u64, tier_big: bool, mode: &str) -> ConcCa
     }
     let (programs, cap, prefill, hashes, class) = match mode {
         "iter" => {
+            // one case in three: a tree bin (all-equal hashes, 128 bins, 9..12 keys), so that the
+            // iterator walks `first`/`next` of a `TreeBin` while writers insert into and remove from it
+            let treebin = rng.chance(1, 3);
+            let class = if treebin { *rng.pick(&["zero", "samebin"]) } else { class };
             let hashes = crate::gen::gen_hashes(&mut rng, class, 40);
-            let cap = *rng.pick(&[0usize, 1, 2, 5, 10, 64]);
-            let pre = rng.below(10) as usize;
+            let cap = if treebin { 64 } else { *rng.pick(&[0usize, 1, 2, 5, 10, 64]) };
+            let pre = if treebin { 9 + rng.below(4) as usize } else { rng.below(10) as usize };
             let prefill: Vec<(u32, u64, u32)> = (0..pre).map(|i| ((i + 1) as u32, rng.below(5), fresh())).collect();
             let mut programs = vec![vec![COp::Iter]];
             if rng.chance(1, 3) {
@@ -954,6 +994,30 @@ pub fn gen_conc_mode(id: usize, seed: u64, tier_big: bool, mode: &str) -> ConcCa
                 programs.push(p);
             }
             (programs, 64usize, prefill, hashes, "collide")
+        }
+        "first" => {
+            // the very first operations on a map without a table: threads race through
+            // `init_table` (and the first growth right behind it)
+            let hc = *rng.pick(&["ident", "uniform", "zero", "fewbins"]);
+            let hashes = crate::gen::gen_hashes(&mut rng, hc, 40);
+            let mut programs = vec![];
+            let mut next_key = 0u32;
+            for _ in 0..(2 + rng.below(3) as usize) {
+                let mut p = vec![];
+                for _ in 0..(1 + rng.below(3)) {
+                    p.push(match rng.below(8) {
+                        0..=4 => {
+                            next_key += 1;
+                            COp::Ins(next_key, 1, fresh())
+                        }
+                        5 => COp::Reserve(rng.below(30) as usize),
+                        6 => COp::CipRm(1 + rng.below(4) as u32),
+                        _ => COp::Get(1 + rng.below(4) as u32),
+                    });
+                }
+                programs.push(p);
+            }
+            (programs, 0usize, vec![], hashes, "first")
         }
         "frozeniter" => {
             // thread 0 dumps the chain of tables and iterates while every other thread is suspended
@@ -1013,13 +1077,16 @@ pub fn gen_conc_mode(id: usize, seed: u64, tier_big: bool, mode: &str) -> ConcCa
                 let mut p = vec![];
                 for _ in 0..(1 + rng.below(3)) {
                     let k = 1 + rng.below(pre as u64 + 2) as u32;
-                    p.push(match rng.below(12) {
+                    // a key that is not in the bin yet (keys up to 20 share the bin)
+                    let knew = (pre as u32 + 1 + rng.below(20 - pre as u64) as u32).min(20);
+                    p.push(match rng.below(15) {
                         0..=3 => COp::Rm(k),
                         4 => COp::Rme(k),
                         5 | 6 => COp::CipInc(k, fresh()),
                         7 => COp::CipRm(k),
                         8 | 9 => COp::Ins(k, rng.below(5), fresh()),
                         10 => COp::Get(k),
+                        11..=13 => COp::Ins(knew, rng.below(5), fresh()),
                         _ => COp::Has(k),
                     });
                 }
@@ -1206,10 +1273,11 @@ pub fn gen_conc_mode(id: usize, seed: u64, tier_big: bool, mode: &str) -> ConcCa
         }
         _ => (programs, cap, prefill, hashes, class),
     };
-    let policy = match rng.below(4) {
+    let policy = match rng.below(6) {
         0 => Policy::Random,
         1 => Policy::Pct { d: 1 + rng.below(3) as usize, horizon: 60 },
         2 => Policy::Pct { d: 2, horizon: 200 },
+        3 | 4 => Policy::RandomAfterWrite,
         _ => Policy::Random,
     };
     let policy = if mode == "frozeniter" {
